@@ -281,7 +281,25 @@ class Case:
             except BaseException as e:   # the program itself went wrong in a way the controller does not swallow
                 return w, [("harness-exc", type(e).__name__ + ": " + str(e)[:80])]
 
+        log_handlers = []
+        if c.get("logging"):
+            # an application with verbose logging switched on for everything: one handler formats each record at once, one
+            # buffers the records (and whatever objects they carry) until it is flushed
+            import io as _sio
+            import logging as _lg
+            import logging.handlers as _lgh
+
+            root = _lg.getLogger()
+            self._old_level = root.level
+            root.setLevel(_lg.DEBUG)
+            h1 = _lg.StreamHandler(_sio.StringIO())
+            h1.setFormatter(_lg.Formatter("%(name)s %(message)s"))
+            h2 = _lgh.MemoryHandler(capacity=1000000, flushLevel=_lg.CRITICAL + 1, target=None)
+            for h in (h1, h2):
+                root.addHandler(h)
+                log_handlers.append(h)
         w0, t0 = run(lambda w, l: None)
+        log_n0 = len(log_handlers[1].buffer) if log_handlers else 0
         refs0 = self.weakrefs(w0)
         del w0
         gc.collect()
@@ -304,6 +322,21 @@ class Case:
                 if n in extra[:2] and r() is not None:
                     who.append(f"{n} <- {[type(x).__name__ for x in gc.get_referrers(r())][:4]}")
             self.problems.append(f"objects of the target still alive after the run and a gc.collect(), in the observed twin only: {extra[:6]} ({'; '.join(who)})")
+        if log_handlers:
+            import logging as _lg2
+
+            root = _lg2.getLogger()
+            for h in log_handlers:
+                root.removeHandler(h)
+            root.setLevel(self._old_level)
+            buf = list(log_handlers[1].buffer)
+            extra_recs = buf[2 * log_n0:]          # the observed twin logs what the unobserved one did, plus what the extractions add
+            if extra_recs:
+                self.problems.append(f"with DEBUG logging switched on, the observed run emitted {len(extra_recs)} log record(s) more than its "
+                                     f"unobserved twin: formatting them runs the target's __repr__s and a buffering handler keeps what they "
+                                     f"carry alive (first: {extra_recs[0].name}: {str(extra_recs[0].msg)[:80]!r})")
+            for h in log_handlers:
+                h.close()
         lowlevel.set_trickery_enabled(None)
         if gc_off:
             if gc.isenabled():
